@@ -81,6 +81,16 @@ CLAIMED.update({
         note="Trusted: z3 (linear real arithmetic), symx, the bare transport objects. The library computes in binary floating point, the solver in exact rationals: inequalities carry a 1e-6 tolerance. Bounds: k <= 3 requests per episode (4 thorough); port queries within 0.2 s because the 50 ms task is stepped. avoid_system_syncs with pending sync cycles is outside.",
         design="4/C11"),
 })
+CLAIMED.update({
+    "C13": dict(
+        text="Claimed for the snapshot/restore clause: the real Gateway.get_state and _restore_cached_packets with the real Gateway/Engine _pause/_resume run on a bare Gateway object; which messages are stored, their ages (solver reals), include_expired, the sending/discovery flags and a fault point (any stored message's expiry test raising, the temporary protocol/transport factory or the replay task failing) are solver variables; per path, returned or raised, the engine is not left paused, handler and flags are as before, every pause is matched by a resume and the operation can be repeated.",
+        note="Not claimed: 'every view of every entity after any packet history' and 'foreign packets never stop tracking' - histories are not a solver domain and the entity classes are outside the symbolically executable subset; the expiry kernel those views share is decided under C14. Trusted: z3, symx, the bare-object stubs. The missing try/finally (engine left paused) was found by this check and repaired.",
+        design="4/C13"),
+    "C16": dict(
+        text="Claimed at the storage-format and filter level: (a) for an arbitrary accepted packet (all frame fields symbolic) the stored text repr(pkt)[:26] -> repr(pkt)[27:] is read back by the real Packet.from_dict as a packet whose stored text is identical (snapshot -> restore -> snapshot is a fixpoint of the packet set, headers and contexts included); (b) the real get_state over stored messages of any of 12 verb/code kinds with symbolic ages and include_expired: whatever is in the snapshot is allowed by the statement (no request, no write but schedule fragments, nothing expired unless asked), live I/RP state is saved, and every stored line decodes again.",
+        note="Not claimed: equality of the schemas of source and restored gateway, idempotence of restoring into a populated gateway (entity layer). The always-kept expired 313F is a recorded known finding. Time stamps are concrete (dt.fromisoformat is C code).",
+        design="4/C16"),
+})
 NOT_APPLICABLE = {
     "C12": "whole-gateway discovery against a scripted controller over simulated hours: the quantified space is a discrete configuration/loss pattern and the entity layer (voluptuous schemas, pollers, entity graph) is outside the symbolically executable subset; decode kernels it rests on are covered under C05",
     "C15": "schema validity/consistency over packet histories: validators are voluptuous (third-party, callable/regex based, not instrumented) and the rules live in the entity graph; no symbolic dimension is encodable within reach",
